@@ -35,9 +35,11 @@ def build(runs):
     return FmtStr(*[Chunk(t, dict(a)) for t, a in runs])
 
 
-def check_value(runs, order):
+def check_value(runs, order, value=None):
     """-> '' or description"""
-    f = build(runs)
+    f = value if value is not None else build(runs)
+    if value is not None:
+        runs = [(c.s, dict(c.atts)) for c in value.chunks]
     P = cells(f)
     txt = f.s
     have, shared = items_of(P), shared_of(P)
@@ -212,5 +214,24 @@ def bounded(check, tier, seed):
     s.done()
 
 
+def derived(check, tier, seed):
+    from bounded.derived import derived_values
+    n = 2500 if tier == "thorough" else 300
+    s = Suite(check, "C15.derived", f"{n} values at the end of chains of <= 4 public operations: the full method / split / splitlines / justify / join "
+              "comparison with str", bound="chains <= 4 operations", exhaustive=False)
+    for k, v in enumerate(derived_values(seed + 7, n)):
+        s.case(("d", k), sample=repr(v) if k < 2 else None)
+        try:
+            d = check_value(None, k % 2, value=v)
+        except Exception as e:      # noqa: BLE001
+            d = f"comparison raised {type(e).__name__}: {e}"
+        if d:
+            inputs = dict(runs=[[c.s, dict(c.atts)] for c in v.chunks], order=k % 2,
+                          other_boundary=any(ch in v.s for ch in "\r\x0b\x0c\x1c\x1d\x1e\x85\u2028\u2029"), kind="derived")
+            s.fail("C15.method", inputs, d)
+    s.done()
+
+
 def run(check, tier, seed):
     bounded(check, tier, seed)
+    derived(check, tier, seed)
